@@ -1213,10 +1213,15 @@ def core_data_units(ctx, mir, stats):
             if ev[2].endswith("push"):
                 N = z3.BitVecVal(1, 64)
             else:
-                src = resolve_source(p.events, i, ev[4][1])
-                m = re.search(r"\(\*(_\d+)\)|(_\d+)", src)
-                loc = (m.group(1) or m.group(2)) if m else None
-                N = p.env.get("slice_len(%s)" % loc) if loc else None
+                # the slice argument: `move _a` with `_a = &(*_b)` and `_b = encode_utf16(..)`
+                a = re.sub(r"^(move|copy) ", "", ev[4][1]).strip()
+                loc = a
+                for e in p.events[:i]:
+                    if e[0] == "assign" and e[2].strip() == a:
+                        mm = re.match(r"&(?:mut )?\(\*(_\d+)\)$", e[3].strip())
+                        if mm:
+                            loc = mm.group(1)
+                N = p.env.get("slice_len(%s)" % loc)
             L = None
             for e in p.events[:i]:
                 if e[0] == "callret" and re.search(r"Vec::<u16>::len$", e[2]):
